@@ -59,7 +59,7 @@ where
         }
         let window_len = T::from(self.window_len).expect("can convert");
         let two = T::from(2.0).expect("can convert");
-        let a1 = T::from(8.88442402435).expect("can convert") / window_len;
+        let a1 = (T::from(-8.88442402435).expect("can convert") / window_len).exp();
         let b1 = two * a1 * (T::from(4.44221201218).expect("can convert") / window_len).cos();
         let c3 = -a1 * a1;
         let c1 = T::one() - b1 - c3;
